@@ -5,6 +5,7 @@ sub-graph
 
 from __future__ import annotations
 
+import contextlib
 from abc import ABC
 from collections.abc import Callable
 from time import sleep
@@ -466,15 +467,9 @@ class Composite(LexicalParent[Node], HasCreator, Node, ABC):
                 f"{replacement_node.__class__} and cannot be owned by {self.label}"
             )
 
-        replacement_node.copy_io(
-            owned_node_instance
-        )  # If the replacement is incompatible, we'll
-        # fail here before we've changed the parent at all. Since the replacement was
-        # first guaranteed to be an unconnected orphan, there is not yet any permanent
-        # damage
-        is_starting_node = owned_node_instance in self.starting_nodes
         # In case the replaced node interfaces with the composite's IO, catch value
-        # links
+        # links -- and make sure the replacement can take them over -- while nothing
+        # has changed yet
         inbound_links = [
             (
                 sending_channel,
@@ -491,6 +486,15 @@ class Composite(LexicalParent[Node], HasCreator, Node, ABC):
             for sending_channel in owned_node_instance.outputs
             if sending_channel.value_receiver in self.outputs
         ]
+        self._ensure_valid_value_links(inbound_links + outbound_links)
+
+        replacement_node.copy_io(
+            owned_node_instance
+        )  # If the replacement is incompatible, we'll
+        # fail here before we've changed the parent at all. Since the replacement was
+        # first guaranteed to be an unconnected orphan, there is not yet any permanent
+        # damage
+        is_starting_node = owned_node_instance in self.starting_nodes
         self.remove_child(owned_node_instance)
         replacement_node.label, owned_node_instance.label = (
             owned_node_instance.label,
@@ -500,13 +504,23 @@ class Composite(LexicalParent[Node], HasCreator, Node, ABC):
         if is_starting_node:
             self.starting_nodes.append(replacement_node)
         for sending_channel, receiving_channel in inbound_links + outbound_links:
-            sending_channel.value_receiver = receiving_channel
+            # The couples were validated up front; like the value copy above, a value
+            # the receiver cannot take is simply not pushed
+            sending_channel._value_receiver = receiving_channel
+            with contextlib.suppress(Exception):
+                receiving_channel.value = sending_channel.value
 
         # Clear caches
         self._cached_inputs = None
         replacement_node._cached_inputs = None
 
         return owned_node_instance, replacement_node
+
+    @staticmethod
+    def _ensure_valid_value_links(links) -> None:
+        """Raise what forging these value links would raise, without forging them."""
+        for sending_channel, receiving_channel in links:
+            sending_channel._ensure_valid_value_receiver(receiving_channel)
 
     def executor_shutdown(self, wait=True, *, cancel_futures=False):
         """
